@@ -27,6 +27,14 @@ pub struct Case {
     pub scale_exp: i8,
 }
 
+/// 10^e for |e| <= 100; beyond that the exponent is stretched so that +-127 reaches 10^+-289 (values next to the
+/// ends of the f64 range: products of two values, or of a value and a weight, overflow or underflow there)
+pub fn unit_of(e: i8) -> f64 {
+    let a = (e as i32).abs();
+    let x = if a <= 100 { a } else { 100 + (a - 100) * 7 };
+    10f64.powi(if e < 0 { -x } else { x })
+}
+
 pub fn materialise(d: &Data) -> Vec<(f64, f64)> {
     fn weight(g: &mut stat::SplitMix64, weighted: bool) -> f64 {
         if !weighted {
@@ -78,7 +86,7 @@ impl Check for C15 {
         "shape"
     }
     fn eval(&self, c: &Case) -> Verdict {
-        let unit = 10f64.powi(c.scale_exp as i32);
+        let unit = unit_of(c.scale_exp);
         let data: Vec<(f64, f64)> = materialise(&c.data).into_iter().map(|(x, w)| (x * unit, w)).filter(|&(x, w)| x.is_finite() && w.is_finite() && w >= 0.0 && (x * w).is_finite() && (w == 0.0 || (x == 0.0 || (x * w).abs() >= 1e-290))).collect();
         let d = match catch(|| build(c.scale, c.delta, c.backlog, &data)) {
             Ok(d) => d,
@@ -255,7 +263,7 @@ fn strategy(tier: Tier) -> BoxedStrategy<Case> {
         4 => (nsmall.clone(), 1u32..12, lo.clone(), span.clone(), any::<u64>(), any::<bool>()).prop_map(|(n, levels, lo, span, seed, weighted)| Data::Ties { n, levels, lo, span, seed, weighted }),
         3 => (nsmall, lo, span, any::<u64>(), any::<bool>()).prop_map(|(n, lo, span, seed, weighted)| Data::Uniform { n, lo, span, seed, weighted }),
     ];
-    let scale_exp = prop_oneof![4 => Just(0i8), 1 => -30i8..=30, 1 => prop_oneof![Just(-19i8), Just(-25), Just(20)]];
+    let scale_exp = prop_oneof![16 => Just(0i8), 4 => -30i8..=30, 4 => prop_oneof![Just(-19i8), Just(-25), Just(20)], 1 => prop_oneof![Just(100i8), Just(-100), Just(120), Just(-120), Just(127), Just(-127), 101i8..=127, -127i8..=-101]];
     // rarely a delta far larger than n (nothing is ever fused); n is then capped, since every insert
     // with a small backlog re-sorts all centroids
     let delta = prop_oneof![24 => delta_strategy(), 1 => prop_oneof![Just(1e4f64), Just(1e5)]];
@@ -280,7 +288,7 @@ pub fn checks() -> Vec<Box<dyn DynCheck>> {
 }
 
 pub fn run(ctx: &Ctx) {
-    ctx.set_rule("generated: scale in K0..K3, delta in (1, 1000] (rarely 1e4, 1e5), backlog 0..1000 (rarely 2^62, usize::MAX - 1, usize::MAX: nothing merges before a read), n in 1..=2000 (50000 thorough), data = explicit (value, weight) lists / heavy ties over few levels / uniform, ranges 1e-3..1e12 (a third of the cases multiplied by 10^e, e in -30..=30), unit weights or weights over 1e-6..1e6; q on a 101-point grid + generated + neighbours of 0 and 1; x on a grid over [min-1, max+1] + data points + {min, max, +-inf}. Oracle: quantile non-decreasing, within [min,max], = min at 0, = max at 1; cdf non-decreasing, in [0,1], 0 below min, 1 from max upward; inverse consistency both ways (cdf(x+tol) >= q for x = quantile(q); quantile(cdf(x-tol)) <= x+tol); repeated reads bit-identical; empty digest NaN / 0; no panic (debug assertions on). tol = 16 ulps of the data range x total/smallest weight. Non-trivial: n_centroids >= 2, some centroid has weight > 1 (fusion happened) and the last centroid's mean is below max. Distinct = hash of the case.");
+    ctx.set_rule("generated: scale in K0..K3, delta in (1, 1000] (rarely 1e4, 1e5), backlog 0..1000 (rarely 2^62, usize::MAX - 1, usize::MAX: nothing merges before a read), n in 1..=2000 (50000 thorough), data = explicit (value, weight) lists / heavy ties over few levels / uniform, ranges 1e-3..1e12 (a third of the cases multiplied by 10^e, e in -30..=30; 4 % by 10^+-100 .. 10^+-289), unit weights or weights over 1e-6..1e6; q on a 101-point grid + generated + neighbours of 0 and 1; x on a grid over [min-1, max+1] + data points + {min, max, +-inf}. Oracle: quantile non-decreasing, within [min,max], = min at 0, = max at 1; cdf non-decreasing, in [0,1], 0 below min, 1 from max upward; inverse consistency both ways (cdf(x+tol) >= q for x = quantile(q); quantile(cdf(x-tol)) <= x+tol); repeated reads bit-identical; empty digest NaN / 0; no panic (debug assertions on). tol = 16 ulps of the data range x total/smallest weight. Non-trivial: n_centroids >= 2, some centroid has weight > 1 (fusion happened) and the last centroid's mean is below max. Distinct = hash of the case.");
     ctx.assume("values with |x*w| finite and normal, as the constructor's documented domain (finite x, finite w >= 0)");
     ctx.run_regressions(&[&C15]);
     let t = ctx.tier;
